@@ -67,6 +67,13 @@ def run(ctx):
     seeds = [ctx.seed] if q else [ctx.seed + k for k in range(4)]
     for sd in seeds:
         behs = ctx.simulate('region', 'RegionCache', 'Sim_RegionCache.cfg', num=120 if q else 500, depth=40, seed=sd)
+        # ... and behaviours of the same system without splits and merges (one region: epochs, terms, reports of a deposed leader)
+        more = ctx.simulate('region', 'RegionCache', 'Sim_RegionCache_terms.cfg', num=120 if q else 500, depth=30, seed=sd)
+        for b in more:
+            for st in b:
+                if st['action'] == 'NextTerms':      # TLC names a step with a nested quantifier after the enclosing definition
+                    st['action'] = 'Next'
+        behs += more
         bj = os.path.join(ctx.dir, 'behs.json')
         json.dump(behs, open(bj, 'w'))
         tr = os.path.join(ctx.dir, 'cache_%d.ndjson' % sd)
